@@ -160,4 +160,6 @@ def harnesses(tier):
         Harness("anomaly.coverage", h_anomaly(1, T, 1, P, True), "climatology in another order with extra entries"),
         Harness("relation", h_relation(T, 1, P, thorough), "-c X  vs  X as additional input"),
         Harness("sequence", h_sequence(2, 1, 1), "whole-array request, then a score, vs a fresh dataset"),
+        Harness("driver_options", __import__("harness.c13", fromlist=["h_dispatch"]).h_dispatch(only=["-c", "-C"]),
+                "-c / -C reach Data(clim=..., clim_type=...) and nothing else (driver.run with recorders)"),
     ]
